@@ -72,6 +72,7 @@ func handlerError(c *Cmd, att int) error {
 // outcome is what a handler returned for one delivery of a command.
 type outcome struct {
 	cmd     string
+	h, att  int // which handler (fan-out) and its how-manieth call for this command
 	res     Res
 	hasErr  bool
 	errText string
@@ -141,7 +142,10 @@ func init() {
 			"caller context {no deadline, deadline 1 h (far later than ListenForReplyTimeout), deadline 3..12 ms (sooner than ListenForReplyTimeout)}; the request is ended by {the cancel function, cancelling the caller's own context, nothing at all: the caller relies on ListenForReplyTimeout / its context deadline - always so for callers that stopped reading when one of the two exists, half of the draining callers}; yield injection at the listener/router/gochannel hook points. " +
 			"Send faults (40% of the cases, there each request with p=0.3, at least one): the first send of the command fails after the listener has been started - {the command publisher returns an error, the command publisher panics, the command bus publishes to a closed GoChannel (the reply topic lives on the open one), OnSend returns an error, OnSend panics, the command cannot be marshalled, GeneratePublishTopic fails, a user CommandBus whose send fails} - through SendWithReply or SendWithReplies as the caller's behaviour says, with every caller context / time-out combination; " +
 			"the caller then does nothing at all (an error: SendWithReply gives it nothing to cancel, with SendWithReplies it ignores the other results by convention), or (30%) sends the command again without fault and goes on as scripted; after a panic it recovers and ends its context late (no retry) or when it is done (retry). " +
-			"Oracle: every reply a caller receives belongs to its own command (the notification the reply exposes is the one the backend published for a delivery of that command; result id / error text when they name a command) and carries exactly what the handler returned for that delivery: error present iff the handler returned one (reply-error-lost / reply-error-invented), the same error text (reply-error-text), the same result (reply-result); a caller that reads until it has them (promptly or late) gets every reply produced for its command as long as neither a time-out nor a context deadline can end the listening first (reply-missing / reply-lost-while-not-reading when it waits for ever at quiescence); the command message is unsettled when its reply is published and afterwards settled as AckCommandErrors says; " +
+			"Reply-publish faults x ReplyPublishErrorHandler x handler outcome x AckCommandErrors (own PRNG stream derived from (seed, case index), so the earlier dimensions of a case are unchanged): half of the cases configure PubSubBackendConfig.ReplyPublishErrorHandler; the reply publisher rejects the reply of scripted handler attempts (35% of the handled commands: attempt 1 with p=0.7, 2 with p=0.4, 3 with p=0.2, at least one; per handler with fan-out; plus the earlier 'first reply of a succeeding command' fault), so that the rejected reply is that of a failed or of a successful handler call; " +
+			"the ReplyPublishErrorHandler answers per (command, attempt) nil (the lost reply is tolerated) or an error (the publish error itself or an unrelated one); expected handler calls and replies per command follow from simulating the script (a command whose every reply is lost and tolerated has no reply at all: its caller ends by its context / the time-out). " +
+			"Oracle: every reply a caller receives belongs to its own command (the notification the reply exposes is the one the backend published for a delivery of that command; result id / error text when they name a command) and carries exactly what the handler returned for that delivery: error present iff the handler returned one (reply-error-lost / reply-error-invented), the same error text (reply-error-text), the same result (reply-result); a caller that reads until it has them (promptly or late) gets every reply produced for its command as long as neither a time-out nor a context deadline can end the listening first (reply-missing / reply-lost-while-not-reading when it waits for ever at quiescence); the command message is unsettled when its reply is published (settled-before-reply-published) and at quiescence every single delivery of every command is settled cell by cell as the statement and the godoc of PubSubBackendConfig say: reply published -> ack, nack iff the handler failed and AckCommandErrors=false (command-settlement); reply publish failed and no ReplyPublishErrorHandler configured ('Command will be nacked by default when sending reply fails') or it returned an error ('If it returns an error the command will be nacked') -> nack, never ack (acked-without-reply); " +
+			"reply publish failed and the ReplyPublishErrorHandler returned nil -> the lost reply decides nothing, the delivery is acked or nacked as AckCommandErrors says for the handler's outcome (tolerated-reply-loss-settlement); with AckCommandErrors=true the handler runs exactly 1 + (untolerated reply-publish failures) times; when callers wait for ever at quiescence the settlements are judged first (a wrongly acked command explains the missing replies of its redeliveries); " +
 			"after cancel / cancellation of the caller's context (or, when ListenForReplyTimeout is configured or the caller's context has a near deadline, after that alone: such callers never end the request themselves; a reading caller must then see the channel closed - timeout-not-honoured / context-end-not-honoured when it reads for ever at quiescence, the 1 h deadline still pending) and at quiescence OnListenForReplyFinished ran exactly once per request and no listener goroutine remains - checked before the harness touches the reply channel of callers that stopped reading - and then the reply channel is observed closed; for a request whose send failed the same is demanded per started listener (a decorator around the backend handed to SendWith* counts the listeners started and keeps their reply channels): OnListenForReplyFinished ran as often as listeners were started (listener-not-finished-after-failed-send) and the channel the caller never got is closed (reply-channel-not-closed-after-failed-send). " +
 			"Non-trivial: >=2 concurrent requests shared the reply topic, or a caller stopped reading with replies pending. Distinct = (program shape incl. per-caller behaviour/context/ending, hook fingerprint).",
 		Assumptions: []string{
@@ -150,6 +154,8 @@ func init() {
 			"reply completeness is demanded only when neither ListenForReplyTimeout nor a near context deadline is in play (under load those may legitimately end the listening before a reply arrives)",
 			"GoChannel may reorder the replies of one command: a late-draining caller counts replies, it does not stop at the successful one",
 			"a send that panics leaves the listener running until the caller's context ends (the statement names cancel, context end and time-out as the triggers; after a panic the caller holds only its context): such listeners are judged after the caller ended its context; how many were still running at quiescence before that is reported as a counter only",
+			"a ReplyPublishErrorHandler that returns nil is the documented opt-out of 'only after the reply was published' for that delivery ('you can control this behaviour with the ReplyPublishErrorHandler config option'): such a delivery may be acked without a reply; what is demanded is that the handler's outcome and AckCommandErrors alone decide then. Whether the ReplyPublishErrorHandler is invoked when no publish failed is only counted (its scripted answer would show up as a wrong settlement)",
+			"GoChannel redelivers a nacked command to the same subscriber at once and hands every (re)delivery out as a fresh copy: deliveries are told apart by message pointer, attempts are counted per (handler, command)",
 			"a failed send that returns an error must end its listener by itself: the caller is left without anything to cancel (SendWithReply) - judged at quiescence with the caller's context still open",
 		},
 		Run: run,
@@ -159,9 +165,12 @@ func init() {
 type caller struct {
 	id         string
 	fails      int
-	replyFault bool   // the first Publish of a reply for this command is rejected by the reply publisher
-	behaviour  string // drain | late-drain | one-late | never-read | cancel-now | single
-	ctxKind    string // plain (no deadline) | far (deadline 1 h) | near (deadline sooner than ListenForReplyTimeout)
+	replyFault bool         // the first Publish of a reply for this command is rejected by the reply publisher
+	pubFaultAt map[int]bool // handler attempts (1-based, per handler) whose reply Publish is rejected by the reply publisher
+	tolerate   []bool       // what the ReplyPublishErrorHandler (when configured) answers for attempt i+1: true = nil (tolerate the lost reply), false = an error
+	wantCalls  int          // handler calls (per handler) the script leads to
+	behaviour  string       // drain | late-drain | one-late | never-read | cancel-now | single
+	ctxKind    string       // plain (no deadline) | far (deadline 1 h) | near (deadline sooner than ListenForReplyTimeout)
 	nearD      time.Duration
 	endBy      string // cancel (the returned cancel function) | parent (the caller's own context is cancelled) | rely (nothing: time-out / deadline must end it)
 	noReply    bool   // Void command: nobody handles it
@@ -207,7 +216,12 @@ func run(e *vlib.Env) vlib.Result {
 			n = 16 // every listener sees every reply of the case: keep the quadratic traffic bounded
 		}
 	}
-	spec := fmt.Sprintf("requests=%d ackCommandErrors=%v listenTimeout=%v onHandle=%v yield=%.1f handlers=%d", n, ackErrors, useTimeout, useOnHandle, yieldP, fanout)
+	// The reply-fault dimension (added later) has its own PRNG stream, derived from the same (run seed, case index) as e.R: every
+	// earlier choice of the case stays what it was for a given seed, and the ReplyPublishErrorHandler has to be decided before the
+	// backend is built.
+	rNew := vlib.NewRand(e.Seed, "C18/reply-faults", e.Idx)
+	rpehConfigured := rNew.Bool()
+	spec := fmt.Sprintf("requests=%d ackCommandErrors=%v listenTimeout=%v onHandle=%v yield=%.1f handlers=%d replyPublishErrorHandler=%v", n, ackErrors, useTimeout, useOnHandle, yieldP, fanout, rpehConfigured)
 	res := vlib.Result{Class: fmt.Sprintf("ackErrors=%v/timeout=%v", ackErrors, useTimeout), Spec: spec}
 	wo := vlib.WaitOpts{Watchdog: 40 * time.Second, NoTimerCheck: []string{wgtFrame}}
 
@@ -276,20 +290,35 @@ func run(e *vlib.Env) vlib.Result {
 		}
 	}
 
-	replyFaults := map[string]bool{}    // command id -> reject its first reply publish
-	replyFaultFired := map[string]int{} // command id -> rejected reply publishes so far
-	failedCopies := map[*message.Message]bool{}
+	replyFaultAt := map[string]map[int]bool{}   // command id -> handler attempts whose reply publish is rejected
+	tolerateAt := map[string][]bool{}           // command id -> answer of the ReplyPublishErrorHandler per attempt (true = nil)
+	failedCopies := map[*message.Message]bool{} // command delivery -> the Publish of its reply was rejected
+	rpehCalls := map[*message.Message]int{}     // command delivery -> invocations of the ReplyPublishErrorHandler for its reply
+	rpehAnswer := map[*message.Message]string{} // command delivery -> "nil" | "error": what the ReplyPublishErrorHandler returned
+	rpehUnknown, rpehSpurious, replyFaultsFired := 0, 0, 0
+	// tolerates: the scripted answer of the ReplyPublishErrorHandler for the reply of attempt att of command cmd (mu held)
+	tolerates := func(cmd string, att int) bool {
+		t := tolerateAt[cmd]
+		if len(t) == 0 {
+			return false
+		}
+		if att > len(t) {
+			att = len(t)
+		}
+		return t[att-1]
+	}
 	replyPub := &samplingPub{inner: ps, before: func(msgs []*message.Message) error {
 		mu.Lock()
 		defer mu.Unlock()
 		for _, m := range msgs {
-			op := m.Metadata.Get(requestreply.OperationIDMetadataKey)
-			c := cmdOf[op]
-			if replyFaults[c] && replyFaultFired[c] == 0 {
-				replyFaultFired[c]++
-				if cm := notifCmd[m]; cm != nil {
-					failedCopies[cm] = true
-				}
+			cm := notifCmd[m]
+			if cm == nil {
+				continue
+			}
+			o := byDelivery[cm]
+			if o != nil && replyFaultAt[o.cmd][o.att] && !failedCopies[cm] {
+				failedCopies[cm] = true
+				replyFaultsFired++
 				return errors.New("scripted reply publisher failure")
 			}
 		}
@@ -342,6 +371,38 @@ func run(e *vlib.Env) vlib.Result {
 	}
 	if useTimeout {
 		bcfg.ListenForReplyTimeout = &timeout
+	}
+	// The ReplyPublishErrorHandler (configured in half of the cases; decided by the last draw of the case, see below): it answers
+	// per (command, attempt) as scripted - nil (the lost reply is tolerated) or an error (the publish error itself or an unrelated one).
+	rpehFn := func(topic string, nm *message.Message, perr error) error {
+		events.Add(1)
+		mu.Lock()
+		defer mu.Unlock()
+		cm := notifCmd[nm]
+		var o *outcome
+		if cm != nil {
+			o = byDelivery[cm]
+		}
+		if o == nil {
+			rpehUnknown++ // not a notification the harness saw being built: cannot be attributed (the case becomes inconclusive)
+			return perr
+		}
+		rpehCalls[cm]++
+		if !failedCopies[cm] {
+			rpehSpurious++ // invoked although the Publish of this reply was not rejected (counter; the answer is the scripted one)
+		}
+		if tolerates(o.cmd, o.att) {
+			rpehAnswer[cm] = "nil"
+			return nil
+		}
+		rpehAnswer[cm] = "error"
+		if o.att%2 == 0 || perr == nil {
+			return errors.New("scripted ReplyPublishErrorHandler: this reply is required")
+		}
+		return perr
+	}
+	if rpehConfigured {
+		bcfg.ReplyPublishErrorHandler = rpehFn
 	}
 	backend, err := requestreply.NewPubSubBackend[Res](bcfg, requestreply.BackendPubsubJSONMarshaler[Res]{})
 	if err != nil {
@@ -469,7 +530,7 @@ func run(e *vlib.Env) vlib.Result {
 			}
 			if orig != nil {
 				deliveries[k] = append(deliveries[k], orig)
-				o := &outcome{cmd: c.ID, res: out, hasErr: herr != nil}
+				o := &outcome{cmd: c.ID, h: h, att: att, res: out, hasErr: herr != nil}
 				if herr != nil {
 					o.errText = herr.Error()
 				}
@@ -529,7 +590,6 @@ func run(e *vlib.Env) vlib.Result {
 		if c.fails == 0 && fanout == 1 && r.Chance(0.25) {
 			// the reply publisher rejects the first reply: the command must be nacked and redelivered, the second reply arrives
 			c.replyFault = true
-			replyFaults[c.id] = true
 		}
 		// the caller's context
 		switch x := r.Intn(20); {
@@ -546,7 +606,6 @@ func run(e *vlib.Env) vlib.Result {
 		if r.Chance(0.08) {
 			c.noReply = true
 			c.fails, c.expect, c.replyFault = 0, 0, false
-			delete(replyFaults, c.id)
 		}
 		// what ends the request
 		c.endBy = "cancel"
@@ -599,7 +658,6 @@ func run(e *vlib.Env) vlib.Result {
 		// nothing is sent: no handler call, no reply; all the caller gets is the error (or the panic)
 		c.unsent = true
 		c.fails, c.expect, c.replyFault = 0, 0, false
-		delete(replyFaults, c.id)
 		switch c.behaviour {
 		case "late-drain", "one-late", "never-read":
 			stoppedReading--
@@ -611,6 +669,70 @@ func run(e *vlib.Env) vlib.Result {
 	}
 	if faulted > 0 {
 		res.Class += "/send-faults"
+	}
+	// Reply-publish faults x ReplyPublishErrorHandler x handler outcome (drawn from the dimension's own stream): the reply publisher
+	// rejects the reply of the scripted handler attempts (any of the first three, per handler with fan-out; the earlier dimension
+	// "first reply of a command whose handler succeeds" is kept), the ReplyPublishErrorHandler - when the case configures one -
+	// answers nil or an error per attempt. What the script leads to (handler calls, replies) follows from the godoc:
+	//   "AckCommandErrors determines if the command should be acked or nacked when handler returns an error. Command will be
+	//    nacked by default when sending reply fails, you can control this behaviour with the ReplyPublishErrorHandler config option."
+	//   "ReplyPublishErrorHandler if not nil will be invoked when sending the reply fails. If it returns an error the command will be nacked."
+	replyFaultCmds := 0
+	mu.Lock()
+	for _, c := range callers {
+		extra := rNew.Chance(0.35)
+		a := [3]bool{rNew.Chance(0.7), rNew.Chance(0.4), rNew.Chance(0.2)}
+		tol := []bool{rNew.Bool(), rNew.Bool(), rNew.Bool(), rNew.Bool()}
+		if c.noReply || c.unsent {
+			continue
+		}
+		c.pubFaultAt = map[int]bool{}
+		if c.replyFault {
+			c.pubFaultAt[1] = true
+		}
+		if extra {
+			for i, on := range a {
+				if on {
+					c.pubFaultAt[i+1] = true
+				}
+			}
+			if len(c.pubFaultAt) == 0 {
+				c.pubFaultAt[1] = true
+			}
+		}
+		c.tolerate = tol
+		if len(c.pubFaultAt) > 0 {
+			replyFaultCmds++
+		}
+		replyFaultAt[c.id] = c.pubFaultAt
+		tolerateAt[c.id] = tol
+		// what the script leads to, per handler: a delivery is nacked (and redelivered) when its reply could not be published and
+		// nobody tolerated that, or when the handler failed and AckCommandErrors=false; otherwise it is acked - the last one
+		calls, replies := 0, 0
+		for att := 1; ; att++ {
+			calls++
+			pubFail := c.pubFaultAt[att]
+			if !pubFail {
+				replies++
+			}
+			if pubFail && !(rpehConfigured && tolerates(c.id, att)) {
+				continue
+			}
+			if att <= c.fails && !ackErrors {
+				continue
+			}
+			break
+		}
+		c.wantCalls = calls
+		c.expect = fanout * replies
+		if c.behaviour == "single" && c.expect == 0 && !c.selfEnding {
+			// every reply of the command is lost (tolerated): SendWithReply returns only when the caller's context ends
+			c.endBy = "parent"
+		}
+	}
+	mu.Unlock()
+	if replyFaultCmds > 0 {
+		res.Class += fmt.Sprintf("/reply-faults:handler=%v", rpehConfigured)
 	}
 	lateCancel := make(chan struct{}) // closed by the harness once every command has been fully handled
 	clip := func(s string) string {
@@ -874,13 +996,7 @@ func run(e *vlib.Env) vlib.Result {
 		mu.Lock()
 		defer mu.Unlock()
 		for _, c := range callers {
-			want := 1
-			if !ackErrors {
-				want = c.fails + 1
-			}
-			if c.replyFault {
-				want++
-			}
+			want := c.wantCalls
 			if c.noReply || c.unsent {
 				want = 0
 			}
@@ -919,6 +1035,75 @@ func run(e *vlib.Env) vlib.Result {
 		res.Sig = vlib.Sig(spec, "runaway")
 		return res
 	}
+	// judgeSettlement (mu held; quiescent): every delivery of a command is settled as the statement and the godoc of
+	// PubSubBackendConfig say, cell by cell:
+	//   reply published                                   -> ack; nack iff the handler failed and AckCommandErrors=false
+	//   reply publish failed, no ReplyPublishErrorHandler -> nack ("Command will be nacked by default when sending reply fails")
+	//   reply publish failed, handler returned an error   -> nack ("If it returns an error the command will be nacked")
+	//   reply publish failed, handler returned nil        -> the lost reply does not decide: as AckCommandErrors says for the
+	//                                                        handler's outcome ("you can control this behaviour with the ReplyPublishErrorHandler")
+	cells := map[string]int{}
+	judgeSettlement := func() {
+		cells = map[string]int{}
+		if rpehUnknown > 0 {
+			res.Inconclusive("the ReplyPublishErrorHandler was invoked %d time(s) with a notification the harness did not see being built: deliveries cannot be attributed", rpehUnknown)
+			return
+		}
+		for _, cl := range callers {
+			for h := 0; h < fanout && !cl.noReply; h++ {
+				c := cl.id
+				calls := handlerCalls[hkey(h, c)]
+				copies := deliveries[hkey(h, c)]
+				if len(copies) == 0 {
+					continue
+				}
+				for i, cp := range copies {
+					o := byDelivery[cp]
+					if o == nil {
+						continue
+					}
+					events.Add(1)
+					st := vlib.Settled(cp)
+					byFlag := "ack"
+					if o.hasErr && !ackErrors {
+						byFlag = "nack"
+					}
+					hOut := map[bool]string{true: "failed", false: "ok"}[o.hasErr]
+					failed := failedCopies[cp]
+					tolerated := failed && rpehConfigured && tolerates(c, o.att)
+					ctx := fmt.Sprintf("command %s, delivery #%d to handler %d (handler %s, AckCommandErrors=%v, ReplyPublishErrorHandler configured=%v, invoked %d time(s) for this reply, answered %q)", c, i+1, h, hOut, ackErrors, rpehConfigured, rpehCalls[cp], rpehAnswer[cp])
+					switch {
+					case failed && !tolerated:
+						how := "absent"
+						if rpehConfigured {
+							how = "err"
+						}
+						cells[fmt.Sprintf("settlement_cell_ackErrors=%v_publish=failed_replyErrHandler=%s_handler=%s", ackErrors, how, hOut)]++
+						// "only after the reply was published": the reply is lost and nobody tolerated that
+						if st == "ack" {
+							res.Fail("acked-without-reply", "%s was acked although the Publish of its reply failed and %s; %s", ctx, map[bool]string{true: "the ReplyPublishErrorHandler is scripted to return an error for it", false: "no ReplyPublishErrorHandler is configured"}[rpehConfigured], spec)
+						} else if st != "nack" {
+							res.Fail("command-settlement", "%s is %q at quiescence, want nack (the Publish of its reply failed); %s", ctx, st, spec)
+						}
+					case failed && tolerated:
+						cells[fmt.Sprintf("settlement_cell_ackErrors=%v_publish=failed_replyErrHandler=nil_handler=%s", ackErrors, hOut)]++
+						if st != byFlag {
+							res.Fail("tolerated-reply-loss-settlement", "%s is %q, want %s: the Publish of its reply failed and the ReplyPublishErrorHandler is scripted to return nil for it, so the lost reply decides nothing and the command is acked or nacked as AckCommandErrors says for the handler's outcome; %s", ctx, st, byFlag, spec)
+						}
+					default:
+						cells[fmt.Sprintf("settlement_cell_ackErrors=%v_publish=ok_replyErrHandler=%s_handler=%s", ackErrors, map[bool]string{true: "configured", false: "absent"}[rpehConfigured], hOut)]++
+						if st != byFlag {
+							res.Fail("command-settlement", "%s is %q, want %s (its reply was published); %s", ctx, st, byFlag, spec)
+						}
+					}
+				}
+				if ackErrors && calls != cl.wantCalls {
+					// handler errors are acked: nothing but an untolerated reply-publish failure redelivers the command
+					res.Fail("command-settlement", "command %s: AckCommandErrors=true, %d untolerated reply publish failure(s) scripted: handler %d ran %d times, want %d; %s", c, cl.wantCalls-1, h, calls, cl.wantCalls, spec)
+				}
+			}
+		}
+	}
 	// which listeners are parked on a full reply channel right now (quiescent: every reply of the case has been produced)?
 	parkedUnread, lateMulti, panicKept := 0, 0, 0
 	mu.Lock()
@@ -946,6 +1131,9 @@ func run(e *vlib.Env) vlib.Result {
 	}()
 	if oc, d := waitT(func() bool { return vlib.IsClosed(allDone) }); oc == vlib.Stuck {
 		mu.Lock()
+		// quiescent: nothing will be settled any more. The settlements first - a wrongly acked command explains a caller that
+		// waits for the replies of its redeliveries
+		judgeSettlement()
 		for _, c := range callers {
 			if vlib.IsClosed(c.done) {
 				continue
@@ -1023,47 +1211,7 @@ func run(e *vlib.Env) vlib.Result {
 		for _, s := range settledEarly {
 			res.Fail("settled-before-reply-published", "%s; %s", s, spec)
 		}
-		for _, cl := range callers {
-			for h := 0; h < fanout && !cl.noReply; h++ {
-				c := cl.id
-				calls := handlerCalls[hkey(h, c)]
-				copies := deliveries[hkey(h, c)]
-				if len(copies) == 0 {
-					continue
-				}
-				// the outcome of the last delivery to this handler decides the expected final settlement
-				st := vlib.Settled(copies[len(copies)-1])
-				events.Add(1)
-				if ackErrors {
-					// handler errors are acked: no redelivery, so exactly one handler call and no nacked delivery
-					wantCalls := 1
-					if cl.replyFault {
-						wantCalls = 2
-					}
-					if calls != wantCalls {
-						res.Fail("command-settlement", "command %s: AckCommandErrors=true, %d reply publish failure(s): handler %d ran %d times, want %d; %s", c, wantCalls-1, h, calls, wantCalls, spec)
-					}
-					for i, cp := range copies {
-						if s := vlib.Settled(cp); s != "ack" && !failedCopies[cp] {
-							res.Fail("command-settlement", "command %s: AckCommandErrors=true but delivery #%d of the command to handler %d is %q; %s", c, i+1, h, s, spec)
-						}
-					}
-				}
-				// a delivery whose reply could not be published must never be acked ("only after the reply was published")
-				for i, cp := range copies {
-					if failedCopies[cp] && vlib.Settled(cp) == "ack" {
-						res.Fail("acked-without-reply", "command %s: delivery #%d was acked although the Publish of its reply failed; %s", c, i+1, spec)
-					}
-				}
-				wantAck := ackErrors || calls > cl.fails
-				if wantAck && st != "ack" {
-					res.Fail("command-settlement", "command %s: last delivery to handler %d is %q, want ack (AckCommandErrors=%v, handler calls %d, fails %d); %s", c, h, st, ackErrors, calls, cl.fails, spec)
-				}
-				if !wantAck && st != "nack" {
-					res.Fail("command-settlement", "command %s: last delivery to handler %d is %q, want nack; %s", c, h, st, spec)
-				}
-			}
-		}
+		judgeSettlement()
 		mu.Unlock()
 		if !res.Failed() {
 			if after, dump := vlib.CountGoroutines(listenerLeak); after > leakBefore {
@@ -1156,6 +1304,23 @@ func run(e *vlib.Env) vlib.Result {
 	res.Count("listeners_still_running_after_send_panic_until_context_end", panicKept)
 	kinds := map[string]int{}
 	mu.Lock()
+	for k, v := range cells {
+		kinds[k] += v
+	}
+	kinds["reply_publish_faults_fired"] = replyFaultsFired
+	kinds["commands_with_reply_publish_faults"] = replyFaultCmds
+	if rpehConfigured {
+		kinds["cases_with_ReplyPublishErrorHandler"] = 1
+	}
+	kinds["ReplyPublishErrorHandler_invoked_without_publish_failure"] = rpehSpurious
+	for _, a := range rpehAnswer {
+		kinds["ReplyPublishErrorHandler_returned_"+a]++
+	}
+	for _, c := range callers {
+		if len(c.pubFaultAt) > 0 && c.expect == 0 {
+			kinds["commands_whose_every_reply_was_lost_and_tolerated"]++
+		}
+	}
 	for k, v := range faultsFired {
 		kinds["send_fault_fired_"+k] += v
 	}
@@ -1210,6 +1375,12 @@ func run(e *vlib.Env) vlib.Result {
 		}
 		if c.sendFault != "" {
 			shape += fmt.Sprintf(":%s:%v", c.sendFault, c.retry)
+		}
+		if len(c.pubFaultAt) > 0 {
+			shape += fmt.Sprintf(":rf%v%v%v", c.pubFaultAt[1], c.pubFaultAt[2], c.pubFaultAt[3])
+			if rpehConfigured {
+				shape += fmt.Sprintf(":tol%v", c.tolerate)
+			}
 		}
 	}
 	res.Sig = vlib.Sig(shape, ctl.Fingerprint())
